@@ -18,7 +18,7 @@ CLAIMED = {
          "Abstract persistence model (see DESIGN.md 2.3); a new file's directory entry counts as durable once the file was fsynced (weak reading).", "DESIGN.md section 7 C03"),
  "C04": ("memsim", "fault_enumeration", "deterministic simulation: nested crashes inside Memvid::open's recovery, compared with the uninterrupted recovery",
          "Crash images that need recovery are opened under the recorder; the recovery's own syscall log is cut at sampled points (nested up to depth 3); the final uninterrupted open must show exactly what a single uninterrupted recovery shows, and opening a recovered file again must change nothing.",
-         "Process-crash model inside recovery. The in-place recovery is a listed known finding.", "DESIGN.md section 7 C04"),
+         "Process-crash model inside recovery (recovery runs on a staged copy since the repair 1abdb16).", "DESIGN.md section 7 C04"),
  "C05": ("walsim", "exploration", "deterministic simulation: seeded EmbeddedWal histories vs vector-of-records model, head steering, power-loss reopen",
          "The public EmbeddedWal API is driven directly (append, checkpoint, stats, scans, reopen from header, read-only view, power-loss reopen from the recorded syscall log) over regions of 96..4096 bytes and 64 KiB with payload sizes steered to the ring's edge cases; every scan is compared with a vector-of-records model. ~10^5 short runs per quick batch.",
          "Sampling, not the exhaustive enumeration the property's quantifier mentions (that is model checking). The caller persists the header at each checkpoint, as Memvid does.", "DESIGN.md section 7 C05"),
